@@ -24,11 +24,15 @@ import (
 //	          return nil.  (In the code the handler takes call 1's request out to look at it, call 2's
 //	          request moves into the freed slot, the put-back finds the slot full: call 1's request is
 //	          dropped — model: Model/MucLive.lean, theorem C18_live_overlap_request_lost.)
+//	leaves    joined; two Leave calls wait; the room sends the occupant's unavailable presence once: both
+//	          must return nil ("leaving returns when that unavailable presence … arrives").  (In the code
+//	          the presence leaves ONE token in the buffered depart channel: one call takes it, the other
+//	          waits for its context — Model/MucLive.lean `lvStep`, C18_live_overlap_leave_one_token.)
 //	samekey   not joined; call 1 and call 2 both ask for nick0; call 1's context ends; the room sends
 //	          the self-presence of nick0: call 2 must return nil.  (In the code call 1's clean-up
 //	          removes the registration call 2 relies on — theorem C18_live_overlap_registration_removed.)
 func runLiveOverlap(r *common.Run) {
-	for n, kind := range []string{"mismatch", "samekey"} {
+	for n, kind := range []string{"mismatch", "samekey", "leaves"} {
 		r.Mark("case liveoverlap %d", n)
 		liveOverlapCase(r, kind)
 	}
@@ -130,6 +134,40 @@ func liveOverlapCase(r *common.Run, kind string) {
 		cancel()
 		returned(ret1, time.Second)
 		returned(ret2, time.Second)
+	case "leaves":
+		first := make(chan error, 1)
+		go func() {
+			c, err := cl.Join(context.Background(), room, rs.S)
+			ch = c
+			first <- err
+		}()
+		if !awaitSent("nick0") {
+			return
+		}
+		pres("nick0")
+		if err, ok := returned(first, watchdog); !ok || err != nil {
+			return
+		}
+		ctx, cancel := context.WithCancel(context.Background())
+		defer cancel()
+		leave := func() chan error {
+			ret := make(chan error, 1)
+			go func() { ret <- ch.Leave(ctx, "") }()
+			return ret
+		}
+		l1, l2 := leave(), leave()
+		settle()
+		settle() // both requests are out, both calls wait
+		feed <- fmt.Sprintf(`<presence xmlns="jabber:client" from="room0@conf.example.net/nick0" type="unavailable">%s</presence>`, x)
+		_, ok1 := returned(l1, time.Second)
+		_, ok2 := returned(l2, 300*time.Millisecond)
+		if ok1 != ok2 || (!ok1 && !ok2) {
+			key = "overlapping-leaves:one-departure-token-for-two-calls"
+			detail = fmt.Sprintf("joined; two Leave calls waited; the occupant's unavailable presence was processed once: returned nil first=%v second=%v", ok1, ok2)
+		}
+		cancel()
+		returned(l1, time.Second)
+		returned(l2, time.Second)
 	case "samekey":
 		// a channel whose first join was cancelled: a Channel value that is not joined
 		ctx0, cancel0 := context.WithCancel(context.Background())
@@ -171,7 +209,11 @@ func liveOverlapCase(r *common.Run, kind string) {
 		returned(ret2, time.Second)
 	}
 	if key != "" {
-		r.Fail("join-success-iff", key, []string{line}, detail)
+		clause := "join-success-iff"
+		if kind == "leaves" {
+			clause = "leave-returns"
+		}
+		r.Fail(clause, key, []string{line}, detail)
 	}
 	_ = obs
 	r.Case(line, true, "liveoverlap")
